@@ -449,8 +449,10 @@ impl<'a> Sim<'a> {
             let proto = self.cx.ch.draw("byz.proto", NPROTO as u64) as usize;
             let k = self.cx.ch.draw("byz.kind", SPECS[proto].msgs.len() as u64) as u8;
             let m = if proto == PS && k == 1 && self.cx.ch.chance("byz.hugepeers", 1, 4) {
+                // 300 addresses: all distinct (overfills the discovery pool) or 40 repeated ones
+                let md = if self.cx.ch.chance("byz.hugepeers.distinct", 1, 2) { 300 } else { 40 };
                 AnyMessage::PeerSharing(p::peersharing::Message::SharePeers(
-                    (0..300u32).map(|j| p::peersharing::PeerAddress::V4(std::net::Ipv4Addr::from_bits(0x0a000001 + (j % 40)), 3000 + (j % 40) as u16)).collect(),
+                    (0..300u32).map(|j| p::peersharing::PeerAddress::V4(std::net::Ipv4Addr::from_bits(0x0a000001 + (j % md)), 3000 + (j % md) as u16)).collect(),
                 ))
             } else {
                 gen_msg(proto, k, &mut self.cx.ch)
